@@ -13,6 +13,11 @@ CHECKS = {
    text="Lean theorems over all file contents: numbering+frame (C13_numbering_frame), end of file (C13_eof), idempotence (C13_idempotent; hypotheses: digits-only rule id, no line with both keys, no CR CR LF — the last is known finding D22 with a decide-proved witness), --check (C13_check_iff). "
         "Tie: util.processYaml (real code, in-process via verif hook) vs the compiled model on generated YAML files, byte-exact; renumber-tests binary on sandbox trees for check/write behaviour.",
    design="§7 C13", technique="Lean 4 proof (list induction) on a hand-written model + differential correspondence with the Go code"),
+ "C14": dict(
+   text="Lean theorems: for every marker pattern on its own and for all lines, the last invocation wins (C14_header_last_wins, C14_year_last_wins, C14_secrule_ver_last_wins, C14_signature_last_wins); lines without marker characters are unchanged (C14_frame); per-line laws lift to whole files (updateRules_last_wins_of_line, hypothesis: no CR CR LF = D22). "
+        "Not yet proved: the setup-version pattern alone and the composition of the five patterns on lines carrying several marker kinds — those are covered by the correspondence and the sequence oracle only. "
+        "Tie: chore.updateRules and every marker regexp alone vs the compiled model, byte-exact; update-copyright binary on sandbox trees, sequences of 1..3 runs vs the last run alone.",
+   design="§7 C14", technique="Lean 4 proof (per-pattern last-wins laws, list induction) + differential correspondence with the Go code"),
 }
 
 NOT_YET = "check not built yet (work in progress in this round; planned per DESIGN.md §7)"
